@@ -181,6 +181,37 @@ func checkC06(r *Run) {
 					), ast.Required()),
 				)))
 			}
+			if len(schemas) > 0 {
+				// a named enum of strings whose member names start with a sign (sort orders, UTC offsets)
+				s0 := schemas[0]
+				s0.AddObject(ast.NewObject(s0.Package, "AimSigns", ast.NewEnum([]ast.EnumValue{
+					{Type: ast.String(), Name: "+name", Value: "+name"},
+					{Type: ast.String(), Name: "-name", Value: "-name"},
+					{Type: ast.String(), Name: "+01:00", Value: "+01:00"},
+					{Type: ast.String(), Name: "plain", Value: "plain"},
+				})))
+				s0.AddObject(ast.NewObject(s0.Package, "AimSignsUser", ast.NewStruct(
+					ast.NewStructField("order", ast.NewRef(s0.Package, "AimSigns"), ast.Required()),
+					ast.NewStructField("inline", ast.NewEnum([]ast.EnumValue{{Type: ast.String(), Name: "+up", Value: "+up"}, {Type: ast.String(), Name: "-down", Value: "-down"}})),
+				)))
+			}
+			if o.Intersections && len(schemas) > 0 {
+				// unions that are direct branches of an allOf
+				s1 := schemas[0]
+				s1.AddObject(ast.NewObject(s1.Package, "AimMixBase", ast.NewStruct(ast.NewStructField("id", ast.String(), ast.Required()))))
+				s1.AddObject(ast.NewObject(s1.Package, "AimMixScalars", ast.NewIntersection([]ast.Type{
+					ast.NewRef(s1.Package, "AimMixBase"),
+					ast.NewDisjunction([]ast.Type{ast.String(), ast.Bool()}),
+				})))
+				s1.AddObject(ast.NewObject(s1.Package, "AimMixNullable", ast.NewIntersection([]ast.Type{
+					ast.NewRef(s1.Package, "AimMixBase"),
+					ast.NewDisjunction([]ast.Type{ast.String(), ast.Null()}),
+				})))
+				s1.AddObject(ast.NewObject(s1.Package, "AimMixRefs", ast.NewIntersection([]ast.Type{
+					ast.NewDisjunction([]ast.Type{ast.NewRef(s1.Package, "AimMixBase"), ast.NewRef(s1.Package, "AimSignsUser")}),
+					ast.NewStruct(ast.NewStructField("extra", ast.String())),
+				})))
+			}
 			if o.Intersections && len(schemas) > 0 {
 				// an allOf whose inline branch holds inline structs with optional members (inline structs survive only there)
 				s0 := schemas[0]
